@@ -45,7 +45,13 @@ def run(c):
             r = json.loads(ln)
             c.nontrivial.add(("obs", r["coarsening"], r["relax"], r["ncycle"], r["npre"], r["npost"], r["pre_cycles"], r["levels"], r["n"]))
     def sig(rec, clauses):
-        nan = rec.get("lin") == -20000 and rec.get("rho") in (0, 10**9)
-        return {"coarsening": rec.get("coarsening"), "relax": rec.get("relax"), "oi_gt1": rec.get("oi_gt1"), "ncycle": rec.get("ncycle"),
+        nan = not rec.get("finite", True)
+        cl = set(clauses)
+        # an expanding cycle (rho > 1) applied twice (pre_cycles = 2) is necessarily indefinite as well:
+        # 2B - BAB has the eigenvalues 1 - (1 - lambda)^2 of the single cycle's lambda
+        kind = ("contraction" if cl == {"contraction"} else
+                "contraction+indefinite-two-cycles" if cl == {"contraction", "positive-definite"} and rec.get("pre_cycles", 1) >= 2 else
+                "other")
+        return {"kind": kind, "coarsening": rec.get("coarsening"), "relax": rec.get("relax"), "oi_gt1": rec.get("oi_gt1"), "ncycle": rec.get("ncycle"),
                 "levels_ge3": rec.get("levels", 0) >= 3, "nan": nan}
     c.judge(res, "cycle operator", sigfn=sig, stage="cycle-obs")
